@@ -379,7 +379,7 @@ func c14Diff(a, b string) string {
 func init() {
 	core.Register(&core.Prop{
 		ID:        "C14",
-		Rule:      "rapid-generated projects of 2-6 modules (entry + 1-5 modules, optionally chained) assembled from declaration templates that exercise literal IDs and data emission (struct/enum types with match, function literals in several modules, string literals, results with catch, arrays, loops, constants), one third of them with 0-6 injected errors per module (several diagnostics on one line, lexer/parser/type errors in sibling modules); each compiled K=4 (thorough 8) times by the real CLI as fresh processes: reference run GOMAXPROCS=1, the others GOMAXPROCS in {1,2,4,16} with hook delays (5-60 ms at enter/deps/spawn) on random module subsets; target in {type-check, wasm, native -keep-gen}. Oracle: equal exit status, byte-equal compiler output (project path normalised), byte-equal gen/*.ssa per module or out.wasm. non-trivial = >=3 files or >=2 diagnostics; distinct = hash of (files, target, schedules)",
+		Rule:      "rapid-generated projects of 2-6 modules (entry + 1-5 modules, optionally chained) assembled from declaration templates that exercise literal IDs and data emission (struct/enum types with match, function literals in several modules, string literals, results with catch, arrays, loops, constants, interfaces with two implementations each - four vtables in a module -, `is` checks on interface {} - several type-ID globals -), optionally an import cycle or a module that does not exist imported by two modules, one third of them with 0-6 injected errors per module (several diagnostics on one line, lexer/parser/type errors in sibling modules); each compiled K=4 (thorough 8) times by the real CLI as fresh processes: reference run GOMAXPROCS=1, the others GOMAXPROCS in {1,2,4,16} with hook delays (5-60 ms at enter/deps/spawn) on random module subsets; target in {type-check, wasm, native -keep-gen}. Oracle: equal exit status, byte-equal compiler output (project path normalised), byte-equal gen/*.ssa per module or out.wasm. non-trivial = >=3 files or >=2 diagnostics; distinct = hash of (files, target, schedules)",
 		Gen:       c14Gen,
 		New:       func() any { return &c14Case{} },
 		Check:     c14Check,
